@@ -135,7 +135,7 @@ def import_state(st: Dict[str, Any]) -> None:
 def plan(tier: str) -> Dict[str, Any]:
     if tier == "thorough":
         return {"runs": 400_000, "chunk": 200, "budget_s": 780, "chunk_hard_s": 900, "minimise_s": 90}
-    return {"runs": 6_000, "chunk": 50, "budget_s": 50, "chunk_hard_s": 300, "minimise_s": 40}
+    return {"runs": 5_000, "chunk": 50, "budget_s": 50, "chunk_hard_s": 300, "minimise_s": 40}
 
 
 def gen_fspec(rng) -> Dict[str, Any]:
@@ -338,7 +338,33 @@ def gen_history(rng, faults: bool) -> Dict[str, Any]:
     nops = rng.randint(5, 40)
     inject_at = rng.randrange(nops) if ("iter" in enabled and rng.random() < 0.35) else -1
     clash_at = rng.randrange(nops) if rng.random() < 0.3 else -1
+    fail_at = rng.randrange(nops) if rng.random() < 0.3 else -1
     for k in range(nops):
+        if k == fail_at and len(envs) < 7:
+            # a call that FAILS half-way on an environment (a user function raising, or the
+            # recursion limit), then lazy and eager calls of a root-referencing query on that
+            # environment over two different documents: the failed call must leave nothing behind
+            eid = f"e{len(envs)}"
+            fs = {"args": ["V"], "ret": "L", "behav": "first"}
+            spec = {"funcs": [["f", fs]], "attrs": {"max_recursion_depth": 3}} if rng.random() < 0.5 else {"funcs": [["f", fs]]}
+            ops.append({"op": "new_env", "id": eid, "spec": copy.deepcopy(spec)})
+            envspecs[eid] = spec
+            envs = sorted(envspecs)
+            deep = f"d{len(docs)}"
+            ops.append({"op": "new_doc", "id": deep, "spec": {"json": {"a": [{"a": 1, "x": [[[[1]]]]}, {"a": 2}], "b": 2}}})
+            docs.append(deep)
+            if "attrs" in spec and rng.random() < 0.6:
+                ops.append({"op": "env_call", "env": eid, "q": "$..x", "doc": deep, "entry": "find"})  # JSONPathRecursionError after some nodes
+            else:
+                ops.append({"op": "arm_fault", "env": eid, "name": "f", "k": rng.choice((1, 2))})
+                ops.append({"op": "env_call", "env": eid, "q": "$.a[?f(@.a)]", "doc": deep, "entry": rng.choice(("find", "find", "finditer"))})
+            cid = f"c{len(compiled)}"
+            q = rng.choice([x for x in SUSPEND_QUERIES if "$" in x[1:]])
+            ops.append({"op": "compile", "id": cid, "env": eid, "q": q})
+            compiled.append(cid)
+            for _ in range(rng.choice((2, 3))):
+                ops.append({"op": "apply", "c": cid, "doc": rng.choice(docs), "entry": rng.choice(("finditer", "find_one", "find", "finditer"))})
+            continue
         if k == clash_at and len(envs) < 7:
             # one function NAME, different types on two environments, each compiling the name
             # where its type matters (and, crosswise, where the other's would): whatever the
